@@ -259,8 +259,31 @@ func stripNot(v ssa.Value) ssa.Value {
 // test this does not depend on how the tests are spelled: `if a { return }; if b { return }`
 // and `if a || b { return }` prune the same edges.
 func reachUnder(fn *ssa.Function, assume func(cond ssa.Value) (val, known bool), target, cut func(ssa.Instruction) bool) ssa.Instruction {
+	return reachUnderD(fn, assume, target, cut, 0)
+}
+
+func reachUnderD(fn *ssa.Function, assume func(cond ssa.Value) (val, known bool), target, cut func(ssa.Instruction) bool, depth int) ssa.Instruction {
 	if len(fn.Blocks) == 0 {
 		return nil
+	}
+	// a call of an unexported helper: a target reachable inside it (its own returns excepted) is
+	// reachable here; if no return of the helper is reachable without a cut, the call is a cut
+	intoHelper := func(in ssa.Instruction) (found ssa.Instruction, stops bool) {
+		cl, ok := in.(*ssa.Call)
+		if !ok || depth >= 2 {
+			return nil, false
+		}
+		h := cl.Call.StaticCallee()
+		if h == nil || h == fn || !inRepo(h) || !isPrivateHelper(h) || len(h.Blocks) == 0 {
+			return nil, false
+		}
+		if t := reachUnderD(h, assume, func(x ssa.Instruction) bool { return !isReturn(x) && target(x) }, cut, depth+1); t != nil {
+			return t, false
+		}
+		if cut != nil && reachUnderD(h, assume, func(x ssa.Instruction) bool { return isReturn(x) && x.Block() != h.Recover }, cut, depth+1) == nil {
+			return nil, true
+		}
+		return nil, false
 	}
 	seen := map[*ssa.BasicBlock]bool{}
 	work := []*ssa.BasicBlock{fn.Blocks[0]}
@@ -280,6 +303,12 @@ func reachUnder(fn *ssa.Function, assume func(cond ssa.Value) (val, known bool),
 				stopped = true
 				break
 			}
+			if t, stops := intoHelper(in); t != nil {
+				return t
+			} else if stops {
+				stopped = true
+				break
+			}
 		}
 		if stopped {
 			continue
@@ -293,7 +322,13 @@ func reachUnder(fn *ssa.Function, assume func(cond ssa.Value) (val, known bool),
 				}
 				cond, flip = u.X, !flip
 			}
-			if v, known := assume(cond); known {
+			v, known := assume(cond)
+			if !known {
+				// a condition computed by an unexported helper of the module (`if hasAvailableKeys(keys)`): the
+				// value every return reachable in the helper under the same assumption agrees on
+				v, known = helperCondUnder(cond, assume, 0)
+			}
+			if known {
 				if v != flip {
 					work = append(work, b.Succs[0])
 				} else {
@@ -370,4 +405,92 @@ func lenPositiveCond(cond ssa.Value, isX func(ssa.Value) bool, pos bool) (val, k
 		}
 	}
 	return false, false
+}
+
+// helperCondUnder: cond is a call of an unexported boolean helper; explore the helper with the
+// branches the assumption decides pruned and collect what its reachable returns return: known when
+// they all return the same constant (a phi of constants counts edge by edge only when every edge agrees).
+func helperCondUnder(cond ssa.Value, assume func(ssa.Value) (bool, bool), depth int) (val, known bool) {
+	cl, ok := cond.(*ssa.Call)
+	if !ok || depth >= 2 {
+		return false, false
+	}
+	h := cl.Call.StaticCallee()
+	if h == nil || !inRepo(h) || !isPrivateHelper(h) || len(h.Blocks) == 0 || h.Signature.Results().Len() != 1 {
+		return false, false
+	}
+	seen := map[*ssa.BasicBlock]bool{}
+	type item struct{ b, from *ssa.BasicBlock }
+	work := []item{{h.Blocks[0], nil}}
+	first, any, agree := false, false, true
+	note := func(k bool) {
+		if !any {
+			first, any = k, true
+		} else if k != first {
+			agree = false
+		}
+	}
+	for len(work) > 0 && agree {
+		it := work[len(work)-1]
+		work = work[:len(work)-1]
+		b := it.b
+		// a return block reached over several edges returns what its phi holds on each of them
+		if ret, isRet := b.Instrs[len(b.Instrs)-1].(*ssa.Return); isRet && len(ret.Results) == 1 {
+			r := ret.Results[0]
+			if ph, isPhi := r.(*ssa.Phi); isPhi && ph.Block() == b && it.from != nil {
+				for i, p := range b.Preds {
+					if p == it.from {
+						if k, isK := constBool(ph.Edges[i]); isK {
+							note(k)
+						} else {
+							return false, false
+						}
+					}
+				}
+				continue
+			}
+			if seen[b] {
+				continue
+			}
+			seen[b] = true
+			if k, isK := constBool(r); isK {
+				note(k)
+				continue
+			}
+			return false, false
+		}
+		if seen[b] {
+			continue
+		}
+		seen[b] = true
+		if iff, ok := b.Instrs[len(b.Instrs)-1].(*ssa.If); ok && len(b.Succs) == 2 {
+			c, flip := iff.Cond, false
+			for {
+				u, isU := c.(*ssa.UnOp)
+				if !isU || u.Op != token.NOT {
+					break
+				}
+				c, flip = u.X, !flip
+			}
+			v, k := assume(c)
+			if !k {
+				v, k = helperCondUnder(c, assume, depth+1)
+			}
+			if k {
+				if v != flip {
+					work = append(work, item{b.Succs[0], b})
+				} else {
+					work = append(work, item{b.Succs[1], b})
+				}
+				continue
+			}
+		}
+		for _, sc := range b.Succs {
+			work = append(work, item{sc, b})
+		}
+	}
+	if !any || !agree {
+		return false, false
+	}
+	return first, true
 }
